@@ -177,9 +177,14 @@ CLAIMED = {
              "TLC, harness/sc_atomic.cpp", design="7/C19",
         technique="TLA+ reference semantics; TLC-enumerated operation sequences replayed on both backends"),
     "C20": dict(
-        text="Pipeline.tla carries a cost annotation (one allocation per step plus the inner objects a callback creates); "
-             "TLC prints the bound per program and operator new is counted while the real API executes the program.",
-        note=SEQ_NOTE, design="7/C20", technique="TLA+ cost annotation; TLC-enumerated programs measured on the code"),
+        text="Pipeline.tla carries a cost annotation (one allocation per step plus the inner objects a callback creates; "
+             "one copy of the value per read out of a SharedFuture, otherwise none); TLC prints the bounds per program and "
+             "operator new / value copies are counted while the real API executes each program. Cost.tla states the "
+             "rules for combinators (WhenAll / WhenAny / Join, every policy and form: blocks bounded by a constant "
+             "independent of the number of inputs) and for Wait / WaitFor / Get / Strand submission / co_await (no "
+             "allocation); the harness measures every call for n = 1..N and TLC evaluates the rules on the measurements.",
+        note=SEQ_NOTE + "; measurements n = 1..12 (quick) / 1..64 (thorough)", design="7/C20",
+        technique="TLA+ cost annotation / cost rules; TLC-enumerated programs and recorded measurements checked by TLC"),
 }
 
 PENDING = ["C02", "C03", "C04", "C05", "C06", "C07", "C08", "C09", "C10", "C11", "C12", "C13", "C14", "C15", "C16", "C17",
